@@ -284,4 +284,10 @@ def check(ctx):
     ctx.include("C07", "C09.R5", only=['C07.R3'])
     ctx.include("C03", "C09.R5", only=None)
     ctx.include("C01", "C09.R5", only=None)
-    ctx.rule("R5", "shared mechanisms, run as obligations of this property: what is recorded is the state after all kernels ran (C08.R1); the state carried from one iteration (and chunk) to the next is the one the kernels left (C07.R3); both state-passing interfaces write back through a full update (C03); derived quantities in the state are the model's cached nodes (C01).")
+    ctx.include("C05", "C09.R5", only=['C05.R4'])
+    from .common import late_binding_obligations
+    late_binding_obligations(
+        ctx, "C09.R2", sorted(m for m in repo.modules if m.startswith("liesel.goose.")
+                              or m in ("liesel.model.distreg", "liesel.model.goose")),
+        "kernels and their factories")
+    ctx.rule("R5", "shared mechanisms, run as obligations of this property: a rejected Metropolis-Hastings proposal returns the WHOLE input state, an accepted one the state updated with the proposal (C05.R4); what is recorded is the state after all kernels ran (C08.R1); the state carried from one iteration (and chunk) to the next is the one the kernels left (C07.R3); both state-passing interfaces write back through a full update (C03); derived quantities in the state are the model's cached nodes (C01).")
